@@ -2,6 +2,7 @@
 tree) with a scripted execution engine and record a canonical trace."""
 import contextlib
 import io
+import json
 import os
 import re
 import zlib
@@ -146,17 +147,26 @@ class Listener:
         self.lid = lid
         self.run = run
 
+    # what a callback returns is of no concern to the scheduler: return False / 0 / None in turn
+    def _ret(self):
+        self.run.nret += 1
+        return (False, 0, None)[self.run.nret % 3]
+
     def on_ts(self, t):
         self.run.on_ts(self.lid, t)
+        return self._ret()
 
     def on_tf(self, t):
         self.run.on_tf(self.lid, t)
+        return self._ret()
 
     def on_ss(self, a):
         self.run.on_ss(self.lid, a)
+        return self._ret()
 
     def on_sf(self, a):
         self.run.on_sf(self.lid, a)
+        return self._ret()
 
 
 class ImplRun:
@@ -179,6 +189,7 @@ class ImplRun:
         self.react = react or []
         self.react_all = react_all   # react also inside finished notifications
         self.ncalls = 0
+        self.nret = 0
         self.pending = []          # canonical ids announced to function 0 and not yet finished
         self.nnot = 0
         self.mutate = mutate
@@ -193,6 +204,8 @@ class ImplRun:
         self.net_notices = []
         self.listeners = {}
         self.observers = {}
+        if not scheduler_uuid and not draw and zlib.crc32(text.encode()) % 5 == 3:
+            scheduler_uuid = "order 17/Charge-\u00e4\u00f6:%d" % (zlib.crc32(text.encode()) % 97)
         buf = io.StringIO()
         with contextlib.redirect_stdout(buf):
             self.s = Scheduler(text, test_ids, draw, scheduler_uuid)
@@ -397,8 +410,15 @@ class ImplRun:
             self.s.detach(ob)
             r = True
         elif op[0] == "finish":
-            uuid = self.uuid_of_sid.get(op[1], "no-such-service-%d" % op[1])
-            r = self.s.fire_event(Event("service_finished", {"service_uuid": uuid}))
+            # an identifier that has not been announced (yet): in test-id mode the numeral itself, which
+            # may well be announced later - a refused event must not be remembered
+            uuid = self.uuid_of_sid.get(op[1], str(op[1]) if self.test_ids else "no-such-service-%d" % op[1])
+            if self.ncalls % 3 == 0:
+                # as it arrives from a message bus: all strings are fresh objects
+                ev = Event.from_json(json.dumps({"event_type": "service_finished", "data": {"service_uuid": uuid}}))
+            else:
+                ev = Event("service_finished", {"service_uuid": uuid})
+            r = self.s.fire_event(ev)
         elif op[0] == "junk":
             r = self.s.fire_event(make_junk(op[1], self))
         else:
